@@ -267,6 +267,31 @@ func dev(filter string) int {
 	return 0
 }
 
+// manifestCategory: the level category claimed for the property in MANIFEST.json (so that evidence and manifest agree).
+func manifestCategory(prop string) string {
+	b, err := os.ReadFile(filepath.Join(verifDir, "MANIFEST.json"))
+	if err != nil {
+		return "proof"
+	}
+	var m struct {
+		Checks []struct {
+			PropertyID   string `json:"property_id"`
+			LevelClaimed struct {
+				Category string `json:"category"`
+			} `json:"level_claimed"`
+		} `json:"checks"`
+	}
+	if json.Unmarshal(b, &m) != nil {
+		return "proof"
+	}
+	for _, c := range m.Checks {
+		if c.PropertyID == prop && c.LevelClaimed.Category != "" {
+			return c.LevelClaimed.Category
+		}
+	}
+	return "proof"
+}
+
 func trunc(s string, n int) string {
 	if len(s) > n {
 		return s[:n] + "…"
@@ -453,10 +478,7 @@ func check(prop, tier string) int {
 	}
 	sort.Strings(ns)
 	sort.Strings(funcs)
-	level := "proof"
-	if prop == "C18" {
-		level = "other"
-	}
+	level := manifestCategory(prop)
 	ev := map[string]interface{}{
 		"property_id": prop, "tier": tier, "seed": e.seed, "level": level,
 		"coverage": map[string]interface{}{
